@@ -288,6 +288,19 @@ def judge(it, res, st):
             st.oracles["out-enc"] += 1
             if got != "OUT:same":
                 bad("path:render-bytes:%s" % enc, "render() is render_unicode() encoded once with output_encoding", "render_unicode().encode(%s)" % enc, got)
+    if "cmd" in r0 and base.startswith("OUT:") and r0["cmd"].get("render") == base:
+        for k_, got in sorted(r0["cmd"].get("encoded", {}).items()):
+            enc = k_.split(":")[0]
+            try:
+                want = "OUT:" + base[4:].encode(enc).hex()
+            except UnicodeEncodeError:
+                want = None
+            st.evaluations += 1
+            st.oracles["cmd_output_encoding"] += 1
+            if want is not None and got != want:
+                bad("path:cmd-output-encoding:%s" % k_.split(":")[1], "mako-render --output-encoding writes the output encoded once", want[:80], "%s -> %s" % (k_, str(got)[:120]))
+            elif want is None and got.startswith("OUT:"):
+                bad("path:cmd-output-encoding:%s" % k_.split(":")[1], "unencodable output is an error", "error", "%s -> %s" % (k_, str(got)[:120]))
     if "get_def" in r0 and base.startswith("OUT:"):
         # defs that mark their own output: the segment written in the page is what get_def(name).render() gives
         for n_, got in sorted(r0["get_def"]["defs"].items()):
